@@ -46,7 +46,8 @@ PROPS = {
         "trust": ["agreement with Sharma et al. within 0.001 is checked numerically on the generated pairs against the model's independent formula; exact 180-degree hue differences are exempt as in the property"],
     },
     "C20": {
-        "rule": "oracle on every 3rd level per channel (quick) / all 2^24 (thorough) x 3 types: alpha, black, retained cones; correspondence with the Lean model as the independent evaluation on a lattice + random HSL-float colours (8-bit channels within one step = property, exact = tie)",
+        "cli": True,
+        "rule": "CLI `colorblind <type>` for the three types vs the model's simulation of that type (printed text exact; 8-bit channels within print rounding of the reference) and argument validation; oracle on every 3rd level per channel (quick) / all 2^24 (thorough) x 3 types: alpha, black, retained cones; correspondence with the Lean model as the independent evaluation on a lattice + random HSL-float colours (8-bit channels within one step = property, exact = tie)",
         "trust": ["the independent evaluation is the Lean model read at Float"],
     },
     "C14": {
